@@ -38,7 +38,8 @@ ASSUMPTIONS = [
 ]
 FLOORS = {"quick": {"evaluations": 300, "pin_draws": 60000, "crash_children": 36,
                     "restarts": 300, "file_writes_checked": 100,
-                    "adversarial_entropy_draws": 500},
+                    "adversarial_entropy_draws": 500,
+                    "adversarial_characters_forced": 4000},
           "thorough": {"evaluations": 4000, "pin_draws": 2000000, "crash_children": 500,
                        "restarts": 6000, "file_writes_checked": 3000,
                        "adversarial_entropy_draws": 30000}}
@@ -607,25 +608,76 @@ def pin_draws(acc, n):
     acc.count("draws_starting_with_digit", seen_digit_start)
 
 
-class ScriptedRandom:
-    """stands in for the `random` module inside ledger.pin: the first draws are
-    scripted (e.g. eight digits), the rest come from a seeded generator"""
+class AdversarialRandom:
+    """stands in for the `random` module inside ledger.pin.  For the first `budget`
+    characters every way of drawing from the PIN alphabet lands on a digit - choice,
+    choices, sample, an index drawn with randrange / randint / random() for a population
+    of 62 - after that a seeded generator takes over.  The generator under test must keep
+    going until the policy holds, whichever primitive it uses."""
+    DIGITS = "0123456789"
 
-    def __init__(self, script, seed):
-        self.script = list(script)
-        self.rng = random.Random(seed)
-        self.choices = 0
+    def __init__(self, budget, seed):
+        self._inner = random.Random(seed)
+        self.budget = budget
+        self.scripted = 0
 
-    def seed(self, *a):
-        pass
+    def __getattr__(self, name):        # anything else: the seeded generator's
+        return getattr(self._inner, name)
+
+    def seed(self, *a, **kw):
+        if a or kw:
+            self._inner.seed(*a, **kw)  # (random.seed() in generate_pin keeps the script)
+
+    def _take(self):
+        if self.budget > 0:
+            self.budget -= 1
+            self.scripted += 1
+            return self._inner.choice(self.DIGITS)
+        return None
 
     def choice(self, seq):
-        self.choices += 1
-        if self.script:
-            want = self.script.pop(0)
-            if want in seq:
-                return want
-        return self.rng.choice(seq)
+        if isinstance(seq, str) and any(c in seq for c in self.DIGITS):
+            d = self._take()
+            if d is not None and d in seq:
+                return d
+        return self._inner.choice(seq)
+
+    def choices(self, population, weights=None, *, cum_weights=None, k=1):
+        if isinstance(population, str) and all(c in population for c in self.DIGITS):
+            return [self.choice(population) for _ in range(k)]
+        return self._inner.choices(population, weights, cum_weights=cum_weights, k=k)
+
+    def sample(self, population, k, *, counts=None):
+        if isinstance(population, str) and all(c in population for c in self.DIGITS) and \
+                k <= 10 and self.budget >= k:
+            self.budget -= k
+            self.scripted += k
+            return self._inner.sample(self.DIGITS, k)
+        return self._inner.sample(population, k, counts=counts)
+
+    def _index62(self):
+        d = self._take()
+        return None if d is None else 52 + int(d)      # ascii_letters + digits
+
+    def randrange(self, start, stop=None, step=1):
+        if stop is None and step == 1 and start == 62:
+            i = self._index62()
+            if i is not None:
+                return i
+        return self._inner.randrange(start, stop, step)
+
+    def randint(self, a, b):
+        if (a, b) == (0, 61):
+            i = self._index62()
+            if i is not None:
+                return i
+        return self._inner.randint(a, b)
+
+    def random(self):
+        i = self._index62()
+        if i is not None:
+            return (i + 0.5) / 62
+        return self._inner.random()
 
 
 def adversarial_entropy(acc, n, seed):
@@ -634,9 +686,8 @@ def adversarial_entropy(acc, n, seed):
     import ledger.pin as lp
     rng = random.Random(seed)
     for i in range(n):
-        rounds = rng.randint(1, 3)
-        script = "".join(rng.choice("0123456789") for _ in range(8 * rounds))
-        fake = ScriptedRandom(script, rng.getrandbits(32))
+        budget = rng.choice([8, 9, 10, 16, 17, 24, rng.randint(8, 40)])
+        fake = AdversarialRandom(budget, rng.getrandbits(32))
         saved = lp.random
         lp.random = fake
         try:
@@ -644,9 +695,10 @@ def adversarial_entropy(acc, n, seed):
         finally:
             lp.random = saved
         acc.count("adversarial_entropy_draws")
+        acc.count("adversarial_characters_forced", fake.scripted)
         if not (isinstance(p, bytes) and pin_policy_ok(p)):
             acc.violation("I3:generated-pin-violates-policy:all-digit-candidate-accepted",
-                          {"pin": p, "script": script}, {"kind": "entropy", "seed": seed})
+                          {"pin": p, "budget": budget}, {"kind": "entropy", "seed": seed})
             return
 
 
